@@ -417,6 +417,70 @@ def stray_store_calls(ctx: Ctx, names: Iterable[str], allowed: Iterable[Func]) -
     return out
 
 
+def loops_can_iterate(ctx: Ctx, rule: str, modules: Iterable[str], what: str) -> int:
+    """every `for` loop of the given modules can run a second iteration: some path leads from the body back to the loop head
+    (a `return` / `break` that ends the body unconditionally makes the loop look at its first element only)"""
+    rep = ctx.report
+    n = 0
+    for f in ctx.prog.funcs.values():
+        if f.module.name not in modules:
+            continue
+        loops = [x for x in f.own_nodes() if isinstance(x, ast.For)]
+        if not loops:
+            continue
+        cfg = cfg_of(f)
+        for loop in loops:
+            heads = [x for x in cfg.nodes if x.kind == "loop" and x.ast is loop]
+            tb = [x for x in cfg.nodes if x.kind == "branch" and x.ast is loop and x.label == "T"]
+            if not heads or not tb:
+                continue
+            n += 1
+            if cfg.find_path(tb, heads, edge_ok=lambda a, b, lab: lab != "exc") is None:
+                last = loop.body[-1]
+                rep.bad(rule, f.qname, f"the loop over `{unparse(loop.iter, 40)}` can reach its next element", f.loc(loop),
+                        [f"{f.loc(last)}: `{unparse(last, 50)}` ends the body on every path: only the first element of `{unparse(loop.iter, 40)}` is ever processed", what],
+                        stmt_key(loop), what="a loop processes its first element only")
+    if n:
+        rep.ok(rule, "dds", f"{n} loops examined in {sorted(modules)}: none ends its body unconditionally", "dds/", nontrivial=False)
+    return n
+
+
+def no_missing_return(ctx: Ctx, rule: str, modules: Iterable[str], what: str) -> int:
+    """mypy reports no `Missing return statement` in the given modules: a function declared to return a value has no path that
+    falls off its end (an implicit None where a result was computed just above)"""
+    import re
+    rep = ctx.report
+    rels = {ctx.prog.module(m).relpath: m for m in modules if m in ctx.prog.modules}
+    n = len(rels)
+    hits = []
+    for e in getattr(ctx.types, "errors", []):
+        m_ = re.match(r"(.*?):(\d+): error: Missing return statement\s+\[return\]", e)
+        if m_ and m_.group(1).replace("\\", "/") in rels:
+            hits.append((m_.group(1), int(m_.group(2))))
+    if not hits:
+        rep.ok(rule, "dds", f"no function of {sorted(rels.values())} can fall off its end where a value is expected", "dds/")
+    for rel, ln in hits:
+        mod = ctx.prog.module(rels[rel])
+        f = None
+        for g in ctx.prog.funcs.values():
+            if g.module is mod and g.node.lineno <= ln <= getattr(g.node, "end_lineno", g.node.lineno):
+                if f is None or g.node.lineno >= f.node.lineno:
+                    f = g
+        site_ = f.qname if f else rels[rel]
+        wit = [f"{rel}:{ln}: mypy: Missing return statement"]
+        if f is not None:
+            from ..cfg import cfg_of as _c
+            cfg = _c(f)
+            imp = [a for a in cfg.nodes for (b, lab) in a.succ if b is cfg.exit and lab != "ret" and a.kind not in ("entry",)]
+            if imp:
+                pth = cfg.find_path([cfg.entry], imp[:1])
+                if pth:
+                    wit += ["a path that reaches the end of the function without `return`:"] + CFG.show_path(pth, f.module.relpath)[-10:]
+        rep.bad(rule, site_, "every path of the function returns a value explicitly", f"{rel}:{ln}", wit + [what], f"missing-return:{site_}",
+                what="a result computed by the function is dropped: the caller receives None")
+    return n
+
+
 def path_map_value(top: Func) -> Optional[ast.AST]:
     """the value given to the evaluation context's `requested_paths` field by the top-level function:
     `ctx._replace(requested_paths=X)` or a (re)construction `EvalContext(requested_paths=X, ...)` with a non-empty X"""
